@@ -3,7 +3,7 @@
    Model: C06/Model.v (transcription of psutil/_pslinux.py, _psposix.get_terminal_map),
    specification: C06/Spec.v (kernel formats from proc(5) / fs/proc/array.c),
    generated table: Gen/C06_Tables.v (PROC_STATUSES of the tree under test). *)
-From PV Require Import C06.Spec C06.ProofsStat C06.ProofsThreads C06.ProofsStatus C06.ProofsTty.
+From PV Require Import C06.Spec C06.ProofsStat C06.ProofsThreads C06.ProofsStatus C06.ProofsTty C06.ProofsMisc.
 From Coq Require Import Permutation.
 
 (* /proc/<pid>/stat: for EVERY comm (any bytes, any length: spaces, parentheses,
@@ -22,6 +22,34 @@ Theorem C06_stat_short_records : forall r,
   parse_stat_file (k_stat r) = of_option IndexError (spec_pstat r).
 Proof. exact parse_stat_spec. Qed.
 Print Assumptions C06_stat_short_records.
+
+(* every record length N >= 39 (N = 39, 40, 41: kernels without delayacct_blkio_ticks): the
+   nine fields and the name are reported whatever N is; field (42) exactly when N >= 42 *)
+Theorem C06_stat_fields_by_N : forall r,
+  wf_kstat r = true ->
+  exists x, parse_stat_file (k_stat r) = Val x /\
+    ps_name x = k_comm r /\
+    fld 3 r = Some (ps_status x) /\ fld 4 r = Some (ps_ppid x) /\ fld 7 r = Some (ps_ttynr x) /\
+    fld 14 r = Some (ps_utime x) /\ fld 15 r = Some (ps_stime x) /\
+    fld 16 r = Some (ps_cutime x) /\ fld 17 r = Some (ps_cstime x) /\
+    fld 22 r = Some (ps_ctime x) /\ fld 39 r = Some (ps_cpunum x) /\
+    ((nfields r < 42)%nat -> ps_blkio x = None) /\
+    ((42 <= nfields r)%nat -> exists b, fld 42 r = Some b /\ ps_blkio x = Some b).
+Proof. exact stat_fields_by_N. Qed.
+Print Assumptions C06_stat_fields_by_N.
+
+(* wf_kstat is: decimal pid, printed fields, and N >= 39 *)
+Theorem C06_wf_kstat_N : forall r, wf_kstat r = true -> (39 <= nfields r)%nat.
+Proof. exact wf_kstat_N. Qed.
+Print Assumptions C06_wf_kstat_N.
+
+Theorem C06_example_record_lengths :
+  wf_kstat (ex_short 39) = true /\ nfields (ex_short 39) = 39%nat /\ fld 42 (ex_short 39) = None
+  /\ wf_kstat (ex_short 41) = true /\ nfields (ex_short 41) = 41%nat /\ fld 42 (ex_short 41) = None
+  /\ wf_kstat (ex_short 42) = true /\ nfields (ex_short 42) = 42%nat /\ fld 42 (ex_short 42) = Some (bs "7")
+  /\ wf_kstat (ex_short 38) = false.
+Proof. exact ex_short_N. Qed.
+Print Assumptions C06_example_record_lengths.
 
 Theorem C06_name_exact : forall r, wf_kstat r = true -> name (k_stat r) = Val (k_comm r).
 Proof. exact name_exact. Qed.
@@ -43,6 +71,48 @@ Theorem C06_status_letters_total :
 Proof. exact status_letters_total. Qed.
 Print Assumptions C06_status_letters_total.
 
+(* ... and the table holds NOTHING else: every entry of PROC_STATUSES is one documented
+   letter with its documented constant; STATUS_ZOMBIE is "zombie" *)
+Theorem C06_status_table_sound :
+  forallb (fun e => match fst e with
+                    | [c] => match spec_status documented_statuses c with
+                             | Some v => beqb v (snd e)
+                             | None => false
+                             end
+                    | _ => false
+                    end) proc_statuses = true
+  /\ beqb status_zombie (bs "zombie") = true.
+Proof. exact (conj status_table_sound status_zombie_const). Qed.
+Print Assumptions C06_status_table_sound.
+
+(* hence, for EVERY token: the code's lookup is the documented mapping, '?' elsewhere *)
+Theorem C06_status_get_total : forall t, status_get proc_statuses t = spec_status_tok t.
+Proof. exact status_get_total. Qed.
+Print Assumptions C06_status_get_total.
+
+(* status() for every ASCII state token (documented letter, unknown letter, longer token) *)
+Theorem C06_status_total : forall r t,
+  wf_kstat r = true -> fld 3 r = Some t -> is_ascii t = true ->
+  status (k_stat r) = Val (spec_status_tok t).
+Proof. exact status_total. Qed.
+Print Assumptions C06_status_total.
+
+(* the public Process.status(): unchanged without a read fault ... *)
+Theorem C06_status_front_plain : forall r t s2 e,
+  wf_kstat r = true -> fld 3 r = Some t -> is_ascii t = true ->
+  status_public (wrapped status (SData (k_stat r)) s2 e) = Val (spec_status_tok t).
+Proof. exact status_front_plain. Qed.
+Print Assumptions C06_status_front_plain.
+
+(* ... and when the read fails (ESRCH / ENOENT) while the re-read shows state Z, the front end
+   turns ZombieProcess into STATUS_ZOMBIE = the documented constant of the letter Z *)
+Theorem C06_status_front_zombie : forall r first e,
+  wf_kstat r = true -> fld 3 r = Some [90] -> first = SESRCH \/ first = SENOENT ->
+  status_public (wrapped status first (SData (k_stat r)) e) = Val (bs "zombie")
+  /\ spec_status documented_statuses 90 = Some (bs "zombie").
+Proof. exact status_front_zombie. Qed.
+Print Assumptions C06_status_front_zombie.
+
 Theorem C06_status_exact : forall r c s,
   wf_kstat r = true -> fld 3 r = Some [c] -> spec_status documented_statuses c = Some s ->
   status (k_stat r) = Val s.
@@ -59,12 +129,68 @@ Theorem C06_cpu_times_exact : forall clk r ut stm cut cst,
 Proof. exact cpu_times_exact. Qed.
 Print Assumptions C06_cpu_times_exact.
 
+(* iowait: 0 on kernels without field (42), delayacct_blkio_ticks / CLK otherwise *)
+Theorem C06_cpu_times_old_kernel : forall clk r ut stm cut cst,
+  wf_kstat r = true -> (nfields r < 42)%nat ->
+  fld 14 r = Some ut -> fld 15 r = Some stm -> fld 16 r = Some cut -> fld 17 r = Some cst ->
+  is_dec ut = true -> is_dec stm = true -> is_dec cut = true -> is_dec cst = true ->
+  cpu_times clk (k_stat r) = Val [secs clk ut; secs clk stm; secs clk cut; secs clk cst; 0 # clk].
+Proof. exact cpu_times_old_kernel. Qed.
+Print Assumptions C06_cpu_times_old_kernel.
+
+Theorem C06_cpu_times_iowait : forall clk r ut stm cut cst b,
+  wf_kstat r = true -> fld 42 r = Some b ->
+  fld 14 r = Some ut -> fld 15 r = Some stm -> fld 16 r = Some cut -> fld 17 r = Some cst ->
+  is_dec ut = true -> is_dec stm = true -> is_dec cut = true -> is_dec cst = true -> is_dec b = true ->
+  cpu_times clk (k_stat r) = Val [secs clk ut; secs clk stm; secs clk cut; secs clk cst; secs clk b].
+Proof. exact cpu_times_iowait. Qed.
+Print Assumptions C06_cpu_times_iowait.
+
 (* start time offset by boot time *)
 Theorem C06_create_time_exact : forall clk bt r st,
   wf_kstat r = true -> fld 22 r = Some st -> is_dec st = true ->
   create_time clk bt (k_stat r) = Val (spec_create_time clk bt st).
 Proof. exact create_time_exact. Qed.
 Print Assumptions C06_create_time_exact.
+
+(* the monotonic variant (used for the process identity) *)
+Theorem C06_create_time_mono_exact : forall clk r st,
+  wf_kstat r = true -> fld 22 r = Some st -> is_dec st = true ->
+  create_time_mono clk (k_stat r) = Val (secs clk st).
+Proof. exact create_time_mono_exact. Qed.
+Print Assumptions C06_create_time_mono_exact.
+
+(* boot_time(): the btime line of /proc/stat, wherever it stands *)
+Theorem C06_boot_time_exact : forall b,
+  wf_kprocstat b = true -> boot_time (k_procstat b) = Val (dec_val (b_btime b)).
+Proof. exact boot_time_exact. Qed.
+Print Assumptions C06_boot_time_exact.
+
+(* the public create_time(): start ticks / CLK + btime of /proc/stat *)
+Theorem C06_create_time_full_exact : forall clk b r st,
+  wf_kstat r = true -> fld 22 r = Some st -> is_dec st = true -> wf_kprocstat b = true ->
+  create_time_full clk (k_procstat b) (k_stat r) = Val (spec_create_time clk (dec_val (b_btime b)) st).
+Proof. exact create_time_full_exact. Qed.
+Print Assumptions C06_create_time_full_exact.
+
+(* exact values of different tick counts are at least one tick apart ... *)
+Theorem C06_create_time_ticks_apart : forall clk bt s s',
+  dec_val s < dec_val s' ->
+  (spec_create_time clk bt s + (1 # clk) <= spec_create_time clk bt s')%Q.
+Proof. exact create_time_ticks_apart. Qed.
+Print Assumptions C06_create_time_ticks_apart.
+
+Theorem C06_secs_ticks_apart : forall clk s s',
+  dec_val s < dec_val s' -> (secs clk s + (1 # clk) <= secs clk s')%Q.
+Proof. exact secs_ticks_apart. Qed.
+Print Assumptions C06_secs_ticks_apart.
+
+(* ... and the float tolerance of the correspondence run, tol x = 2^-48 * max(1,|x|), taken twice
+   is narrower than one tick for |x| <= 2^36 s and CLK <= 1024: an off-by-one tick never hides in it *)
+Theorem C06_tolerance_below_half_tick : forall clk x,
+  (Qabs x <= 68719476736)%Q -> (Zpos clk <= 1024) -> (2 * tol x < 1 # clk)%Q.
+Proof. exact tolerance_below_half_tick. Qed.
+Print Assumptions C06_tolerance_below_half_tick.
 
 (* psutil.Process(pid) reads the start time first; on a kernel record that never fails, so
    every statement above about an accessor is a statement about the public call *)
@@ -101,6 +227,54 @@ Theorem C06_terminal_none : forall devs r,
   terminal true (map dev_entry devs) (k_stat r) = Val None.
 Proof. exact terminal_none. Qed.
 Print Assumptions C06_terminal_none.
+
+(* get_terminal_map(): the two glob() calls return exactly the nodes the specification names
+   (/dev entries starting with "tty", then /dev/pts entries that are not dot-files) ... *)
+Theorem C06_glob_listing : forall dev pts,
+  glob_tty (map dev_entry dev) ++ glob_pts (map dev_entry pts) = map dev_entry (listed_nodes dev pts).
+Proof. exact glob_listing. Qed.
+Print Assumptions C06_glob_listing.
+
+(* ... so for EVERY pair of directory listings (any number of nodes, any names, nodes that vanish
+   before os.stat, several paths for one device) terminal() is the path of the last listed node
+   with the task's device number *)
+Theorem C06_terminal_dirs_exact : forall dev pts r M m t,
+  wf_kstat r = true -> forallb wf_dev dev = true -> forallb wf_dev pts = true ->
+  1 <= M < 4096 -> 0 <= m < 1048576 ->
+  fld 7 r = Some t -> parse_int t = Some (as_int32 (kernel_encode_dev M m)) ->
+  terminal true (glob_tty (map dev_entry dev) ++ glob_pts (map dev_entry pts)) (k_stat r)
+  = Val (spec_terminal M m (listed_nodes dev pts) None).
+Proof. exact terminal_dirs_exact. Qed.
+Print Assumptions C06_terminal_dirs_exact.
+
+(* which path wins among duplicates: the last one inserted into the dict *)
+Theorem C06_terminal_last_wins : forall M m a d b,
+  dev_matches M m d = true -> forallb (fun d => negb (dev_matches M m d)) b = true ->
+  spec_terminal M m (a ++ d :: b) None = Some (d_path d).
+Proof. exact spec_terminal_last. Qed.
+Print Assumptions C06_terminal_last_wins.
+
+(* the answer is always a listed, still existing node with the task's (major, minor) ... *)
+Theorem C06_terminal_sound : forall M m devs p,
+  spec_terminal M m devs None = Some p ->
+  exists d, In d devs /\ d_path d = p /\ dev_matches M m d = true.
+Proof. exact spec_terminal_sound. Qed.
+Print Assumptions C06_terminal_sound.
+
+(* ... and None only when no listed node has it *)
+Theorem C06_terminal_complete : forall M m devs,
+  spec_terminal M m devs None = None -> forallb (fun d => negb (dev_matches M m d)) devs = true.
+Proof. exact spec_terminal_complete. Qed.
+Print Assumptions C06_terminal_complete.
+
+Theorem C06_example_terminal_dirs :
+  forallb wf_dev ex_dev = true /\ forallb wf_dev ex_pts = true
+  /\ map d_path (listed_nodes ex_dev ex_pts)
+     = [bs "/dev/tty1"; bs "/dev/ttyS0"; bs "/dev/pts/0"; bs "/dev/pts/alias0"; bs "/dev/pts/ptmx"]
+  /\ spec_terminal 136 0 (listed_nodes ex_dev ex_pts) None = Some (bs "/dev/pts/alias0")
+  /\ spec_terminal 4 64 (listed_nodes ex_dev ex_pts) None = None.
+Proof. exact ex_terminal_dirs. Qed.
+Print Assumptions C06_example_terminal_dirs.
 
 Theorem C06_example_terminal :
   wf_kstat ex_kstat = true /\ forallb wf_dev ex_devs = true /\ fld 7 ex_kstat = Some (bs "34816")
@@ -150,11 +324,28 @@ Theorem C06_example_hostile_threads :
 Proof. exact ex_threads_wf. Qed.
 Print Assumptions C06_example_hostile_threads.
 
-(* ppid_map(): every process, any name *)
-Theorem C06_ppid_map_roundtrip : forall ps,
-  forallb wf_kproc ps = true -> ppid_map (map proc_entry ps) = Val (spec_ppid_map ps).
+(* ppid_map() over ANY /proc listing: processes with any names -- present, vanished, or
+   unreadable -- and non-numeric entries, in any order *)
+Theorem C06_ppid_map_roundtrip : forall es,
+  forallb wf_kentry es = true -> ppid_map (map entry_of es) = Val (spec_ppid_map es).
 Proof. exact ppid_map_roundtrip. Qed.
 Print Assumptions C06_ppid_map_roundtrip.
+
+(* pids(): exactly the process entries of the listing *)
+Theorem C06_pids_exact : forall es,
+  forallb wf_kentry es = true -> pids (map fst (map entry_of es)) = spec_pids es.
+Proof. exact pids_exact. Qed.
+Print Assumptions C06_pids_exact.
+
+Theorem C06_ppid_map_subset : forall es, incl (map fst (spec_ppid_map es)) (spec_pids es).
+Proof. exact ppid_map_subset. Qed.
+Print Assumptions C06_ppid_map_subset.
+
+Theorem C06_example_proc_listing :
+  forallb wf_kentry ex_entries = true /\ spec_ppid_map ex_entries = [(1, 7); (4242, 7)]
+  /\ spec_pids ex_entries = [1; 4242; 77; 78].
+Proof. exact ex_entries_wf. Qed.
+Print Assumptions C06_example_proc_listing.
 
 (* /proc/<pid>/status: for EVERY comm (any bytes, any length) *)
 Theorem C06_uids_exact : forall r, wf_kstatus r = true -> uids (k_status r) = Val (spec_uids r).
@@ -177,6 +368,19 @@ Theorem C06_num_ctx_switches_exact : forall r,
   num_ctx_switches (k_status r) = spec_ctx r.
 Proof. exact num_ctx_switches_exact. Qed.
 Print Assumptions C06_num_ctx_switches_exact.
+
+(* the two outcomes spelled out: kernels before 2.6.23 print no such lines *)
+Theorem C06_num_ctx_switches_absent : forall r,
+  wf_kstatus r = true -> comm_len_ok (s_comm r) = true -> s_ctx r = None ->
+  num_ctx_switches (k_status r) = Exc NotImplementedError.
+Proof. exact num_ctx_switches_absent. Qed.
+Print Assumptions C06_num_ctx_switches_absent.
+
+Theorem C06_num_ctx_switches_present : forall r v n,
+  wf_kstatus r = true -> comm_len_ok (s_comm r) = true -> s_ctx r = Some (v, n) ->
+  num_ctx_switches (k_status r) = Val (dec_val v, dec_val n).
+Proof. exact num_ctx_switches_present. Qed.
+Print Assumptions C06_num_ctx_switches_present.
 
 Theorem C06_example_hostile_status :
   wf_kstatus (ex_kstatus (bs "Uid:" ++ [9; 48; 9; 48; 9; 48])) = true
